@@ -3,15 +3,53 @@
 import json, os
 HERE = os.path.dirname(os.path.dirname(os.path.abspath(__file__)))
 
+def C(text, note, technique, ref, engine="XH"):
+    return dict(text="Bounded symbolic checking (solver verdict over all values inside the stated bounds; counterexamples replayed "
+                     "with plain Python): " + text, note=note, technique=technique, ref=ref, engine=engine)
+
+
+XH = "symbolic execution of the real Python code with CrossHair (z3)"
 CLAIMED = {
- "C01": dict(
-   text="Bounded symbolic checking (solver verdict over all values inside the stated bounds): CrossHair/z3 executes the real "
-        "Op.eval and every node class's eval with stub children from an arbitrary counter k and budget N (unbounded ints); "
-        "API templates with symbolic budget and host bindings; cross-eval lambda obligation.",
-   note="Assumes structural induction over the syntax tree (not mechanised), CrossHair's models of int/bool/list/dict, "
-        "formatting stub for symbolic ints in messages. List-typed child fields <= 2, closure calls <= 2.",
-   technique="symbolic execution of the real evaluator with CrossHair (z3), one inductive step per node kind + API templates",
-   ref="DESIGN §6 C01"),
+ "C01": C("real Op.eval and every node class's eval with stub children from an arbitrary counter k and budget N (unbounded ints); "
+          "API templates with symbolic budget/host data against an independent node counter; monotonicity/prefix; cross-eval lambdas.",
+          "Structural induction over the syntax tree is assumed (not mechanised); CrossHair's models of int/bool/list; formatting stub "
+          "for symbolic ints in messages; list-typed child fields <= 2, closure calls <= 2, host lists <= 3.",
+          XH + ": one inductive step per node kind + API templates", "DESIGN §6 C01"),
+ "C03": C("the real push/insert/index-assignment/compound-index-assignment on containers whose LENGTH is an unbounded symbolic int; "
+          "growth contract of every other list/dict-producing route (concatenation with symbolic lengths, the rest non-growing at sizes <= 3).",
+          "dict contents abstracted by a dict subclass with symbolic __len__; concatenation operands abstracted by list/str subclasses with "
+          "symbolic length (replayed on real containers); iteration routes bounded to length <= 3.",
+          XH + ": container length as a symbolic integer", "DESIGN §6 C03"),
+ "C04": C("routing of *, **, *= over all 36 pairs of host-suppliable operand kinds with Decimal replaced by a recording stub; LIA magnitude "
+          "lemmas for native int paths; decimal context facts.",
+          "Digits of Decimal results are libmpdec's (decimal module contract: context operations round to <= 28 digits); floats only at dispatch level.",
+          XH + " with a Decimal recording stub + LIA lemmas", "DESIGN §6 C04"),
+ "C09": C("every node class's real eval with logging stub children (truth values and the failing child symbolic) and 17 templates through "
+          "SqParser.eval with host probes.",
+          "Structural induction over the tree; child fields <= 2 elements; templates fixed.",
+          XH + ": evaluation-order log per node kind", "DESIGN §6 C09"),
+ "C10": C("real ScopedDict over arbitrary stacks (<= 3 scopes x 2 names, presence symbolic), real LambdaOp closure with a re-entrant / raising "
+          "body, scoping templates through SqParser.eval with symbolic host bindings.",
+          "Stack depth <= 3, re-entrancy <= 2; deeper stacks not proved.",
+          XH, "DESIGN §6 C10"),
+ "C12": C("routing of every assignment form with copy.deepcopy replaced by a tagging stub, and effect templates with the real deepcopy on "
+          "nested containers with symbolic leaves and symbolic mutation sites (program side and host side).",
+          "copy.deepcopy's contract; shapes <= 2x2.",
+          XH + " with a deepcopy tagging stub", "DESIGN §6 C12"),
+ "C15": C("the real grammar actions with and without trailing commas / in the three call spellings on argument lists of symbolic length.",
+          "Action level only so far (token- and text-level halves are added by the LRC/LXC engines when present in evidence).",
+          XH + " over grammar actions", "DESIGN §6 C15"),
+ "C16": C("runtime failure templates through SqParser.eval with symbolic keys/indices/budget; p_error for an arbitrary token or None; t_error; "
+          "reserved-word action; name-reading node kinds on an unbound name.",
+          "strings <= 3 chars; which inputs reach p_error/t_error is the LRC/LXC half.",
+          XH, "DESIGN §6 C16"),
+ "C19": C("real _rand/_shuffle with `random` replaced by a contract stub whose draws are symbolic.",
+          "random's documented ranges; Decimal constructor exact (recording stub); lists <= 4.",
+          XH + " with nondeterministic contract stubs for random", "DESIGN §6 C19"),
+ "C20": C("every lexer rule function from an arbitrary (line, bracket depth) state satisfying the line invariant; p_error's message for "
+          "distinct token/lexer lines.",
+          "matched texts from a pool filtered by each rule's regex; formatted line numbers bounded 1..5.",
+          XH + ": one inductive step of the lexer line invariant", "DESIGN §6 C20"),
 }
 NOT_YET = {}
 NA = {}
